@@ -15,7 +15,7 @@ import json, os, subprocess, sys, time, hashlib, shutil, re, random
 from concurrent.futures import ThreadPoolExecutor
 
 VERIF = '/verif'
-REPO = '/repo'
+REPO = os.environ.get('VERIF_REPO', '/repo')
 BUILD = os.path.join(VERIF, 'build')
 COQ = os.path.join(VERIF, 'coq')
 GEN = os.path.join(COQ, 'theories', 'Gen')
